@@ -220,7 +220,7 @@ func (s *Scanner) stringLiteral() {
 
 	s.advance()
 
-	value := s.source[s.start+1 : s.current-1]
+	value := string(s.source[s.start+1 : s.current-1])
 	s.AddToken(token.STRING, value)
 }
 
